@@ -57,6 +57,12 @@ def run(ctx):
     walks = [list(s["walk"]) for s in r2.dump if len(s["walk"]) >= 2]
     payloads = [{"primes": PRIMES, "vectors": vectors[i::12]} for i in range(12) if vectors[i::12]]
     payloads += [{"walks": walks[i::4], "nstates": 40 if thorough else 8, "seed": ctx.seed + i} for i in range(4)]
+    # "any central body mu": the same lattice and walks about the Moon and about a synthetic heavy body (frames of their own, whose
+    # centre carries the body); the code must take mu from the state's frame everywhere
+    for bi, body in enumerate(("moon", "heavy")):
+        sub = vectors[bi::(2 if thorough else 6)]
+        payloads += [{"primes": PRIMES, "vectors": sub[i::3], "body": body} for i in range(3) if sub[i::3]]
+        payloads.append({"walks": walks[bi::(3 if thorough else 9)], "nstates": 12 if thorough else 4, "seed": ctx.seed + 10 + bi, "body": body})
     for res in ctx.harness_parallel("forms_replay.py", payloads, procs=16, timeout=3000):
         ctx.absorb(res)
     ctx.extra["walks"] = len(walks)
